@@ -1370,6 +1370,25 @@ void reb_simulation_rescale_var(struct reb_simulation* const r){
             if (r->integrator == REB_INTEGRATOR_WHFAST && r->ri_whfast.safe_mode == 0){
                 r->ri_whfast.recalculate_coordinates_this_timestep = 1;
             }
+            if (r->integrator == REB_INTEGRATOR_IAS15){
+                // IAS15 predicts the next step from the coefficients of the last one and
+                // carries compensated summation terms. Both are linear in the coordinates.
+                struct reb_integrator_ias15* const ri_ias15 = &(r->ri_ias15);
+                struct reb_dp7* const dp7s[5] = {&(ri_ias15->b), &(ri_ias15->e), &(ri_ias15->br), &(ri_ias15->er), &(ri_ias15->csb)};
+                for (int k=3*vc->index; k<3*(vc->index+N) && k<(int)ri_ias15->N_allocated; k++){
+                    for (int d=0; d<5; d++){
+                        dp7s[d]->p0[k] /= scale;
+                        dp7s[d]->p1[k] /= scale;
+                        dp7s[d]->p2[k] /= scale;
+                        dp7s[d]->p3[k] /= scale;
+                        dp7s[d]->p4[k] /= scale;
+                        dp7s[d]->p5[k] /= scale;
+                        dp7s[d]->p6[k] /= scale;
+                    }
+                    ri_ias15->csx[k] /= scale;
+                    ri_ias15->csv[k] /= scale;
+                }
+            }
         }
     }
 }
